@@ -164,6 +164,33 @@ def check_ctor(ctx, s, sig):
     rf = u.raw_fragment
     if pct_decode_bytes(fragment or "") != pct_decode_bytes(rf):
         bad.append(("fragment", fragment, rf))
+    if not bad:
+        # the canonical TEXT itself: str(url), split by the reference model, must carry the same bytes
+        # (the raw accessors and the renderer are different code: __str__ rebuilds the authority in some branches)
+        s2 = guarded(str, u)
+        if is_exc(s2):
+            bad.append(("str", s, repr(s2)))
+        else:
+            sch2, auth2, path2, q2, f2, gray2 = rfc.split(s2)
+            if gray2 or bool(auth2) != has_auth or (auth2 and all(c in "@:" for c in auth2)) or (sch2 or "").lower() != u.scheme:
+                # the rendered text splits into a different SHAPE (e.g. a decoded ':' in a first rootless segment reads as a scheme):
+                # that is C03's subject (finding D13), not a byte-preservation statement
+                ctx.count("gray_rendered_shape")
+            else:
+                if auth2:
+                    user2, password2, host2, port2, notes2 = rfc.split_authority(auth2)
+                    if not ("text-before-bracket" in notes2 or "text-after-bracket" in notes2):
+                        if pct_decode_bytes(user2 or "") != pct_decode_bytes(user or ""):
+                            bad.append(("str.user", user, user2))
+                        if (password2 is None) != (password is None) or pct_decode_bytes(password2 or "") != pct_decode_bytes(password or ""):
+                            bad.append(("str.password", password, password2))
+                if raw_path_units(path2) != raw_path_units(rpath) and not (has_auth and {path2, rpath} <= {"", "/"}):
+                    bad.append(("str.path", rpath, path2))
+                if (q2 or "") != rq:
+                    bad.append(("str.query", rq, q2))
+                if pct_decode_bytes(f2 or "") != pct_decode_bytes(rf):
+                    bad.append(("str.fragment", rf, f2))
+                ctx.count("rendered_text_checked")
     ctx.ev(sig + ("ok" if not bad else "bad",) if sig else None)
     ctx.count("ctor_checked")
     if bad:
@@ -359,6 +386,8 @@ def check_join(ctx, base_s, ref_s, sig):
 CTOR_POS = {
     "user": "http://{}@h/p", "password": "http://u:{}@h/p", "path": "http://h/a/{}/b", "path_last": "http://h/{}", "query": "http://h/p?k={}&{}=v", "fragment": "http://h/p#{}",
     "relpath": "x/{}/y", "noauth": "foo:/{}",
+    # an explicitly written default port sends str() through its authority-rebuilding branch
+    "user_dport": "http://{}@h:80/p", "password_dport": "wss://u:{}@h.:443/p",
 }
 NEIGH = ["{}", "%{}", "{}4", "a{}b"]
 
